@@ -51,3 +51,17 @@ def install(w):
     w.contract(f"{D}.is_output_type", params={"type_": "ty"}, returns="bool",
                ensures=["result == OutputTy(type_)"], decreases="ty_rank(type_)",
                props={"C20"})
+
+    # required = non-null and no default of either kind (the external `default` or the deprecated
+    # internal `default_value`): the definition every consumer (coercion, validation, schema
+    # validation) relies on
+    w.contract(f"{D}.is_required_input_field", params={"field": "ref:GraphQLInputField"},
+               returns="bool",
+               ensures=["result == (NonNull(field.type) and field.default is None"
+                        " and is_undefined(field.default_value))"],
+               props={"C20", "C15", "C13"})
+    w.contract(f"{D}.is_required_argument", params={"arg": "ref:GraphQLArgument"},
+               returns="bool",
+               ensures=["result == (NonNull(arg.type) and arg.default is None"
+                        " and is_undefined(arg.default_value))"],
+               props={"C20", "C15", "C13"})
